@@ -6,8 +6,23 @@
     round trip and after crossing the boundary without GRPCWrap; whether
     EmbedObject panicked; whether GRPCWrap returned its argument.
 
-    The token-level message of every case is also rendered to bytes and split
-    like strings.Split does; both levels must agree (validated abstraction). *)
+    Two modes.  By default ([c_exact = false]) a case fails only on the
+    observables the property C19 names, evaluated on what the implementation
+    did ([check_property]): for a chain around a class that has a code,
+    Is(GRPCWrap(e), c') holds for that class and for no other, also after the
+    status round trip; GRPCWrap(GRPCWrap(e)) is indistinguishable from
+    GRPCWrap(e) by class, code and extracted object; an object that is
+    extractable before GRPCWrap is the one extracted afterwards and on the
+    other side, and embedding into a chain of plain texts round-trips; every
+    non-OK status code maps back to a class (never nil).  Behaviour outside
+    the statement (Is before GRPCWrap, classes without a code, message texts,
+    EmbedObject panics on marker texts / second embeds, whether GRPCWrap
+    returns its argument, the value of the marker) is not compared.
+
+    With the harness flag --exact ([c_exact = true]) every observable must in
+    addition be exactly what the model (hand-written tables) computes
+    ([check_exact]), and the token-level message of every case is rendered to
+    bytes and split like strings.Split does; both levels must agree. *)
 From Coq Require Import List NArith Bool.
 From GL Require Import model.Errors.
 Import ListNotations.
@@ -35,6 +50,7 @@ Record obs := mkObs {
 
 Record case := mkCase {
   c_id : N;
+  c_exact : bool;           (* harness flag --exact: compare every observable with the model *)
   c_leaf : leaf;
   c_ctx : ctx;              (* outermost frame first *)
   c_built : bool;           (* false: an EmbedObject call panicked (the rest is then ignored) *)
@@ -42,6 +58,7 @@ Record case := mkCase {
   c_w : obs;                (* w = GRPCWrap(e) *)
   c_same : bool;            (* w == e *)
   c_idem : bool;            (* GRPCWrap(w) == w *)
+  c_w2 : obs;               (* GRPCWrap(w) *)
   c_msgkept : bool;         (* FromGRPCErrorMsg(w) == FromGRPCErrorMsg(e) *)
   c_t : obs;                (* t = status.Convert(w).Err() and the protobuf wire round trip of it *)
   c_tsame : bool;           (* t has the code and the message of w *)
@@ -122,7 +139,7 @@ Definition levels_agree (e : option err) : bool :=
           then true else false)
   end.
 
-Definition check_case (c : case) : bool :=
+Definition check_exact (c : case) : bool :=
   match model_err c with
   | None => negb (c_built c)
   | Some e =>
@@ -133,6 +150,7 @@ Definition check_case (c : case) : bool :=
       && obs_eqb (observe w) (c_w c)
       && Bool.eqb (as_is e) (c_same c)
       && Bool.eqb (as_is w) (c_idem c)
+      && obs_eqb (observe (grpc_wrap_o TB w)) (c_w2 c)
       && Bool.eqb (msg_eqb (grpc_msg_o w) (grpc_msg_o e)) (c_msgkept c)
       && obs_eqb (observe t) (c_t c)
       && Bool.eqb (same_status t w) (c_tsame c)
@@ -140,38 +158,81 @@ Definition check_case (c : case) : bool :=
       && levels_agree e && levels_agree w
   end.
 
+(** the property itself, evaluated on what the implementation did; the model
+    is only used to say which classes have a code today and which texts are
+    plain (no ESC byte, so that no marker constant containing ESC occurs in them) *)
+Definition plain_msg (m : msg) : bool :=
+  forallb (fun t => match t with Text s => no_esc s | Marker => false | _ => true end) m.
+
+Definition plain_ctx (x : ctx) : bool :=
+  forallb (fun f => match f with FWrap t => plain_msg t | FEmbed _ => true end) x.
+
+(* indistinguishable by class, code and extracted object *)
+Definition obs_core_eqb (a b : obs) : bool :=
+  Bool.eqb (o_nil a) (o_nil b) && class_list_eqb (o_is a) (o_is b)
+  && code_eqb (o_code a) (o_code b) && oobj_eqb (o_ext a) (o_ext b).
+
+Definition is_some_class (o : option class) : bool :=
+  match o with Some _ => true | None => false end.
+
+Definition check_property (c : case) : bool :=
+  match c_leaf c with
+  | LSentinel cl =>
+      match to_code TB cl with
+      | None => true                           (* a class without a code: outside the statement *)
+      | Some _ =>
+          if c_built c then
+            (* the class, and no other class, after GRPCWrap and on the other side *)
+            negb (o_nil (c_w c)) && class_list_eqb (o_is (c_w c)) [cl]
+            && negb (o_nil (c_t c)) && class_list_eqb (o_is (c_t c)) [cl]
+            (* idempotent *)
+            && obs_core_eqb (c_w2 c) (c_w c)
+            (* what was extractable stays extractable, with the same object *)
+            && match o_ext (c_e c) with
+               | Some o => oobj_eqb (o_ext (c_w c)) (Some o) && oobj_eqb (o_ext (c_t c)) (Some o)
+               | None => true
+               end
+            (* one object embedded into a chain of plain texts is extractable *)
+            && (if plain_ctx (c_ctx c)
+                then match ctx_embeds (c_ctx c) with
+                     | [o] => oobj_eqb (o_ext (c_e c)) (Some o)
+                     | _ => true
+                     end
+                else true)
+          else
+            (* EmbedObject may refuse texts with markers and second embeds, not a
+               first embed into plain texts *)
+            negb (plain_ctx (c_ctx c) && Nat.leb (length (ctx_embeds (c_ctx c))) 1)
+      end
+  | LStatus k _ =>
+      (* every non-OK code maps back to a class, never to nil *)
+      if c_built c && negb (code_eqb k OK) then is_some_class (o_from (c_e c)) else true
+  | LPlain _ => true
+  end.
+
+Definition check_case (c : case) : bool :=
+  check_property c && (if c_exact c then check_exact c else true).
+
 Definition mismatches (cs : list case) : list N :=
   map c_id (filter (fun c => negb (check_case c)) cs).
 
-(* the property itself, evaluated on what the implementation did (not on the
-   model): for a chain of wraps/embeds around a class that has a code, the
-   wrapped error and the transported one are of exactly that class *)
-Definition spec_verdict (c : case) : bool :=
-  match c_leaf c, c_built c with
-  | LSentinel cl, true =>
-      match to_code TB cl with
-      | Some _ => class_list_eqb (o_is (c_w c)) [cl] && class_list_eqb (o_is (c_t c)) [cl]
-                  && c_idem c
-                  && oobj_eqb (o_ext (c_w c)) (o_ext (c_e c))
-      | None => true
-      end
-  | _, _ => true
-  end.
+Definition spec_verdict (c : case) : bool := check_property c.
 
 (* for replay: what the model says *)
 Record explained := mkExplained {
-  x_id : N; x_ok : bool; x_spec : bool; x_panics : bool;
+  x_id : N; x_ok : bool; x_spec : bool; x_exact_ok : bool; x_panics : bool;
   x_e : obs; x_w : obs; x_same : bool; x_idem : bool; x_t : obs; x_u : obs;
-  x_levels : bool
+  x_levels : bool;
+  x_observed : case         (* what the implementation did *)
 }.
 
 Definition explain (c : case) : explained :=
   match model_err c with
-  | None => mkExplained (c_id c) (check_case c) (spec_verdict c) true
-              (observe None) (observe None) true true (observe None) (observe None) true
+  | None => mkExplained (c_id c) (check_case c) (spec_verdict c) (check_exact c) true
+              (observe None) (observe None) true true (observe None) (observe None) true c
   | Some e =>
       let w := grpc_wrap_o TB e in
-      mkExplained (c_id c) (check_case c) (spec_verdict c) false
+      mkExplained (c_id c) (check_case c) (spec_verdict c) (check_exact c) false
         (observe e) (observe w) (as_is e) (as_is w) (observe (transport_o w))
-        (observe (transport_o e)) (levels_agree e && levels_agree w)
+        (observe (transport_o e)) (levels_agree e && levels_agree w) c
   end.
